@@ -13,8 +13,8 @@ HERE = os.path.dirname(os.path.dirname(os.path.abspath(__file__)))
 
 def one(d):
     m = json.load(open(os.path.join(d, 'meta.json')))
-    if m.get('retired'):
-        return m['name'], 'retired', [], {}
+    if m.get('retired') or m.get('frozen'):
+        return m['name'], 'retired' if m.get('retired') else 'frozen', [], {}
     checks = sorted({k.split(':')[0] for k in m.get('checks', {})}) or [m['breaks_property']]
     mp = os.path.join(d, 'meta.json')
     backup = open(mp).read()
